@@ -111,7 +111,83 @@ def generate(rng, tier):
             else:
                 ops.append(["C", k])
         cases.append({"cap": cap, "ops": number_values(ops), "kind": "random"})
+    return cases + big_cases(rng, tier)
+
+
+def big_cases(rng, tier):
+    """long runs at LARGE capacities (the production cache holds 10000 pages): a run of D dirty entries at the cold
+    end, clean entries above it, then insertions of new keys - each must evict the least recently used CLEAN entry,
+    however far from the cold end it sits - lookups and re-dirtying in between, and at the end a cache full of dirty
+    entries, where (and only where) insertions are refused. Observed sparsely (model_agrees_sparse)."""
+    plan = [(300, 270), (1500, 1100)] if tier == "quick" else \
+           [(300, 270), (700, 530), (1500, 1100), (2500, 2100), (5000, 4200), (10000, 8300)]
+    cases = []
+    for cap, d in plan:
+        d = d + rng.randrange(0, 8)
+        ops = []
+        for k in range(1, d + 1):
+            ops.append(["S", k, None, 1])                     # dirty, coldest
+        for k in range(d + 1, cap + 1):
+            ops.append(["S", k, None, 0])                     # clean, fills the cache
+        nxt = cap + 1
+        for _ in range(rng.randint(20, 40)):                  # evictions past the dirty run
+            r = rng.random()
+            if r < 0.6:
+                ops.append(["S", nxt, None, 1 if rng.random() < 0.3 else 0])
+                nxt += 1
+            elif r < 0.75:
+                ops.append(["G", rng.randrange(1, nxt)])
+            elif r < 0.9:
+                ops.append(["D", rng.randrange(d + 1, nxt)])
+            else:
+                ops.append(["C", rng.randrange(1, d + 1)])
+        # make everything dirty: now, and only now, insertions are refused
+        for k in range(1, nxt):
+            ops.append(["D", k])
+        for _ in range(3):
+            ops.append(["S", nxt, None, 0])
+            nxt += 1
+        ops.append(["C", rng.randrange(1, cap)])
+        ops.append(["S", nxt, None, 0])
+        cases.append({"cap": cap, "ops": number_values(ops), "kind": "large-capacity", "sparse": True})
     return cases
+
+
+def evaluate_big(ctx, cases, name):
+    ok, obs, lg = vlib.run_driver_parallel(ctx.bins["storage"], "lru",
+                                           [{"cap": c["cap"], "ops": c["ops"], "sparse": True} for c in cases])
+    if not ok or len(obs) != len(cases):
+        raise RuntimeError("lru driver failed: " + lg[-2000:])
+    terms = []
+    for c, o in zip(cases, obs):
+        outs = []
+        for op, st in zip(c["ops"], o["steps"]):
+            r = st["r"]
+            if op[0] == "S":
+                outs.append("RSet %s %s" % (cq_bool(r[0]), cq_opt(None if r[1] < 0 else "%d" % r[1])))
+            elif op[0] == "G":
+                outs.append("RGet %s" % cq_opt("%d" % r[1] if r[0] else None))
+            else:
+                outs.append("RNone")
+        terms.append("(%d%%nat, %s, %s, %s)" % (c["cap"], cq_list(op_coq(x) for x in c["ops"]), cq_list(outs),
+                                                res_coq(o["steps"][-1]["res"])))
+    okc, res, lg = vlib.run_coq_cases(name, HEADER, terms, "lru_sparse_case", {"MM": "model_agrees_sparse"}, shard=2)
+    if not okc:
+        raise RuntimeError("coq evaluation failed: " + lg[-3000:])
+    return obs, res["MM"]
+
+
+def first_difference(ctx, case):
+    """shortest prefix of a large-capacity run on which the implementation and the model disagree"""
+    lo, hi = 1, len(case["ops"])
+    while lo < hi:
+        mid = (lo + hi) // 2
+        _, mm = evaluate_big(ctx, [dict(case, ops=case["ops"][:mid])], "c15_big_shrink")
+        if mm:
+            hi = mid
+        else:
+            lo = mid + 1
+    return dict(case, ops=case["ops"][:lo])
 
 
 def classify(case, obs):
@@ -181,7 +257,10 @@ def run(ctx):
         cases = [ctx.replay["case"]]
     else:
         cases = generate(ctx.rng, ctx.tier)
-    obs, mm, sm = evaluate(ctx, cases, "c15")
+    big = [c for c in cases if c.get("sparse")]
+    cases = [c for c in cases if not c.get("sparse")]
+    big_obs, big_mm = evaluate_big(ctx, big, "c15_big") if big and ctx.model_ok else ([], [])
+    obs, mm, sm = evaluate(ctx, cases, "c15") if cases else ([], [], [])
     seen = set()
     nontrivial = 0
     kinds = {}
@@ -207,6 +286,10 @@ def run(ctx):
         "traces_validated_against_impl": len(cases),
         "steps_compared": nops,
         "case_kinds": kinds,
+        "large_capacity_runs": [{"capacity": c["cap"], "operations": len(c["ops"]),
+                                 "refusals": sum(1 for op, st in zip(c["ops"], o["steps"]) if op[0] == "S" and st["r"][0] == 0),
+                                 "evictions": sum(1 for op, st in zip(c["ops"], o["steps"]) if op[0] == "S" and st["r"][1] >= 0)}
+                                for c, o in zip(big, big_obs)],
         "cases_with": tagcount,
         "exhaustive": False,
         "samples": [{"cap": c["cap"], "ops": c["ops"][:12], "first_steps": o["steps"][:3]}
@@ -220,6 +303,16 @@ def run(ctx):
         out["spec_violations"].append({"case": small, "observed": o2[0],
                                        "what": "LRUCache behaviour rejected by Spec.LruSpec.step_ok",
                                        "replay_cmd": "python3 tools/check.py C15 --replay <this file>"})
+    for i in big_mm[:1]:
+        small = first_difference(ctx, big[i])
+        o2, _ = evaluate_big(ctx, [small], "c15_big_final")
+        last = small["ops"][-1]
+        out["spec_violations"].append({
+            "case": small, "observed_last_step": o2[0]["steps"][-1]["r"], "last_operation": last,
+            "what": "at capacity %d, after %d operations, the return value of this operation differs from the "
+                    "reference model (an insertion refused although a clean entry exists, a wrong victim, ...)"
+                    % (small["cap"], len(small["ops"]) - 1),
+            "replay_cmd": "python3 tools/check.py C15 --replay <this file>"})
     for i in mm[:2]:
         small = shrink(ctx, cases[i], "MM")
         o2, _, _ = evaluate(ctx, [small], "c15_final")
